@@ -20,22 +20,32 @@ def sh(cmd, cwd=None, timeout=1800, env=None):
 
 
 meta = {"seed": sid, "breaks_property": props[0], "source": "independent sub-agent given only the property text and a scratch worktree"}
+old_meta = None
+if os.environ.get("SKIP_CONFIRM") and os.path.exists(f"{V}/seeded/{sid}/meta.json"):
+    old_meta = json.load(open(f"{V}/seeded/{sid}/meta.json"))
+    src = f"{V}/seeded/{sid}"
 sh(f"git -C /repo worktree remove --force {wt}")
-rc, out = sh(f"git -C /repo worktree add --detach {wt} HEAD")
 env = dict(os.environ, PYTHONPATH=wt, PYTHONHASHSEED="0")
-try:
-    rc, out = sh(f"git apply {src}/patch.diff", cwd=wt)
-    meta["patch_applies"] = rc == 0
-    rc, out = sh(f"{PY} {src}/demo.py", cwd=wt, env=env, timeout=600)
-    meta["demo_with_change"] = "fails" if rc != 0 else "passes"
-    rc, out = sh(f"{PY} -m pytest -q -p no:cacheprovider --timeout=900 -x", cwd=wt, env=env)
-    tail = [l for l in out.splitlines() if "passed" in l or "failed" in l]
-    meta["suite_with_change"] = tail[-1] if tail else out[-200:]
-    sh("git checkout -- .", cwd=wt)
-    rc, out = sh(f"{PY} {src}/demo.py", cwd=wt, env=env, timeout=600)
-    meta["demo_without_change"] = "fails" if rc != 0 else "passes"
-finally:
-    sh(f"git -C /repo worktree remove --force {wt}")
+if old_meta is not None and old_meta.get("confirmed"):
+    for k in ("patch_applies", "demo_with_change", "suite_with_change", "demo_without_change", "needs"):
+        if k in old_meta:
+            meta[k] = old_meta[k]
+    meta["history"] = old_meta.get("history", []) + [{"checks": old_meta.get("checks")}]
+else:
+  rc, out = sh(f"git -C /repo worktree add --detach {wt} HEAD")
+  try:
+      rc, out = sh(f"git apply {src}/patch.diff", cwd=wt)
+      meta["patch_applies"] = rc == 0
+      rc, out = sh(f"{PY} {src}/demo.py", cwd=wt, env=env, timeout=600)
+      meta["demo_with_change"] = "fails" if rc != 0 else "passes"
+      rc, out = sh(f"{PY} -m pytest -q -p no:cacheprovider --timeout=900 -x", cwd=wt, env=env)
+      tail = [l for l in out.splitlines() if "passed" in l or "failed" in l]
+      meta["suite_with_change"] = tail[-1] if tail else out[-200:]
+      sh("git checkout -- .", cwd=wt)
+      rc, out = sh(f"{PY} {src}/demo.py", cwd=wt, env=env, timeout=600)
+      meta["demo_without_change"] = "fails" if rc != 0 else "passes"
+  finally:
+      sh(f"git -C /repo worktree remove --force {wt}")
 meta["confirmed"] = bool(meta.get("patch_applies") and meta["demo_with_change"] == "fails" and meta["demo_without_change"] == "passes"
                          and "passed" in meta["suite_with_change"] and "failed" not in meta["suite_with_change"])
 try:
@@ -45,7 +55,7 @@ except OSError:
 dst = f"{V}/seeded/{sid}"
 os.makedirs(dst, exist_ok=True)
 for f in ("patch.diff", "demo.py", "notes.md"):
-    if os.path.exists(f"{src}/{f}"):
+    if os.path.exists(f"{src}/{f}") and os.path.abspath(src) != os.path.abspath(dst):
         shutil.copy(f"{src}/{f}", dst)
 # run the checks against the change applied to /repo itself, then undo
 meta["checks"] = {}
